@@ -101,7 +101,7 @@ class Gen:
                 if r.random() < 0.8:
                     st["Default"] = r.choice(later)
             elif kind == "Wait":
-                st["Seconds"] = r.choice([1, 2, 5])
+                st["Seconds"] = r.choice([0, 1, 2, 5])        # 0: still a timer, still cancellable
                 if r.random() < 0.2:
                     st["OutputPath"] = r.choice(["$", "$.b"])
             elif kind == "Parallel":
